@@ -139,14 +139,17 @@ def deserialize (u : UC) (tyName : Text) (v : Text) : Option Val :=
     else (pyInt v).map (fun z => if 0 ≤ z then .id z.toNat else .int z)
   | none => none
 
+/-- the optional leading `-` of `(-)?(\d+)…` -/
+def stripMinus : Text → Text
+  | [] => []
+  | c :: r => if c = '-' then r else c :: r
+
 /-- `guess_type_name(value)` on a value text of a statement -/
 def guessType (u : UC) (v : Text) : Option Ty :=
   let up := u.upper v
   if up = Gen.SqlLex.Kw.TRUE.chars ∨ up = Gen.SqlLex.Kw.FALSE.chars then some .BOOLEAN
   else
-    let body := match v with
-      | '-' :: r => r
-      | _ => v
+    let body := stripMinus v
     if !(body.takeWhile u.isDigit).isEmpty then
       match body.dropWhile u.isDigit with
       | '.' :: r => if (r.takeWhile u.isDigit).isEmpty then some .INTEGER else some .REAL
